@@ -60,6 +60,7 @@ func (opts CollectJSONOptions) getSource() (<-chan *birch.Document, <-chan error
 					errs <- err
 					return
 				}
+				vpoint("js.send")
 				out <- doc
 			}
 		}()
